@@ -165,7 +165,7 @@ let errk_name = function
 let trace st = String.concat "" (List.map (fun args -> "(" ^ String.concat " " (List.map (value st 0) args) ^ ")") st.trace)
 
 let () =
-  let fuel = nat_of_int 3000 in
+  let fuel = nat_of_int (try int_of_string (Sys.getenv "SEM_FUEL") with Not_found -> 800) in
   try
     while true do
       let line = input_line stdin in
